@@ -46,7 +46,8 @@ def maximal(v, lid='mx', flags=()):
           'lemma': {'writtenForm': 'Lemma One', 'partOfSpeech': 'n', 'script': u('script'),
                     'tags': [tag(), tag()]},
           'forms': [{'writtenForm': 'forms one', 'script': u('script'), 'tags': [tag()]},
-                    {'writtenForm': 'form two'}],
+                    {'writtenForm': 'form two'},
+                    {'writtenForm': 'form three'}],
           'senses': [
               {'id': P + 's1', 'synset': P + 'ss1', 'meta': _meta(u, 'coverage', 'note'),
                'relations': [
@@ -102,6 +103,8 @@ def maximal(v, lid='mx', flags=()):
         e1['lemma']['pronunciations'] = [pron(True), pron(False)]
         e1['forms'][0]['id'] = P + 'f1'
         e1['forms'][0]['pronunciations'] = [pron(True)]
+        e1['forms'][2]['id'] = P + 'f3'
+        e1['forms'][2]['pronunciations'] = [pron(False)]
         ss1['members'] = [P + 's4', P + 's1']
         ss1['lexfile'] = 'noun.max'
         ss4['lexfile'] = 'verb.max'
@@ -142,10 +145,15 @@ def extension(v, base, lid='xt', flags=()):
         xe1['lemma'] = {'external': True,
                         'tags': [{'text': u('xtagtext'), 'category': u('category')}],
                         'pronunciations': [{'text': u('xprontext')}]}
-        xe1['forms'] = [{'id': B + 'f1', 'external': True,
+        # the external forms are listed in another order than in the base (the third form first),
+        # and a newly added Form stands between them
+        xe1['forms'] = [{'id': B + 'f3', 'external': True,
                          'tags': [{'text': u('xtagtext'), 'category': u('category')}],
                          'pronunciations': [{'text': u('xprontext'), 'variety': u('variety')}]},
-                        {'writtenForm': 'extension form', 'id': P + 'f9'}]
+                        {'writtenForm': 'extension form', 'id': P + 'f9'},
+                        {'id': B + 'f1', 'external': True,
+                         'tags': [{'text': u('xtagtext'), 'category': u('category')}],
+                         'pronunciations': [{'text': u('xprontext')}]}]
     ne = {'id': P + 'e1', 'meta': _meta(u, 'creator'),
           'lemma': {'writtenForm': 'lemma two', 'partOfSpeech': 'n'},
           'senses': [{'id': P + 's1', 'synset': P + 'ss1', 'meta': None},
